@@ -176,7 +176,7 @@ def selftest_async(wd, fs_trace):
                     runs.append(cur)
             elif cur is not None:
                 cur.append(r)
-            if len(runs) > 3000:
+            if len(runs) > 12000:
                 break
     muts = {}
     for evs in runs:
